@@ -7,6 +7,7 @@ import PasfmtModel.Model.Cursor
 import PasfmtModel.Model.Parser
 import PasfmtModel.Model.IO
 import PasfmtModel.Model.Consolidators
+import PasfmtModel.Model.ParserFull
 
 namespace Pasfmt
 
@@ -184,6 +185,23 @@ def handleParse (kindsS passesS : String) : String :=
     s!"passes={passesStr}\tlines={linesStr}"
   | _, _ => "bad-record"
 
+/-- the `pfull` stream: the whole parser, control flow included; `tr` = replaying the control flow's own primitive
+    trace through the machine (`parseFile`) gives the same lines (so the C14 theorems, which hold for every trace,
+    apply to the model parser's output) -/
+def handlePfull (kindsS nlS : String) : String :=
+  match (parseList kindsS).mapM RawTokenType.ofRust with
+  | some kinds =>
+    let nl := if nlS == "-" then [] else nlS.toList.map (· == '1')
+    match parseFileFull (kinds.zip nl) with
+    | none => "model-none"
+    | some o =>
+      let pk := showList (o.kinds.map fun k => k.toTokenType.toRust)
+      let tr := match parseFile kinds o.traces with
+        | some ls => ls == o.lines
+        | none => false
+      s!"pk={pk}\tpl={showList (o.lines.map showPLine) ";"}\tinfo_tr={bool01 tr}"
+  | none => "bad-record"
+
 def parseTable (s : String) : Option (List (Bytes × Option Bytes)) :=
   (parseList s).mapM fun e =>
     match e.splitOn ":" with
@@ -271,6 +289,7 @@ def handleLine (line : String) : String :=
   | ["fmt", cfg, inp, kinds, lines, post, changed, alnum, cursors, wf, pk, pl] =>
     handleFmt cfg inp kinds lines post changed alnum cursors (wf == "1") (showConsolidated pk pl)
   | ["parse", kinds, passesOps] => handleParse kinds passesOps
+  | ["pfull", kinds, nl] => handlePfull kinds nl
   | ["io", mode, enc, content, header, fmtT, decT, encT] => handleIo mode enc content header fmtT decT encT
   | ["sched", workers] => handleSched workers
   | ["cfg", dirs, file, ov, known, valid, defaults] => handleCfg dirs file ov known valid defaults
